@@ -179,6 +179,7 @@ type Exec struct {
 	instrs   int
 	globalsInit map[string]bool
 	lastArgs    map[string]*Val
+	visitedBlocks map[*ssa.BasicBlock]bool
 	allocBase0  *Term
 	topMods     []modTarget
 	autoHeader  []autoMark
